@@ -30,6 +30,7 @@ from cgsim.core import H, Violation, Skip, match_known  # noqa: E402
 RUN_WALL_LIMIT = 25
 
 
+SPARSE_SHARE = 0.1  # share of runs whose circuits carry no `output` attribute on non-output nodes (ref.SPARSE)
 STALE_SHARE = 0.15  # share of runs in which every circuit handed to the library was seen by it before in another state (ref.STALE)
 TWICE_SHARE = 0.2   # share of runs in which every judged library call is preceded by the same call (see RunCtx.call)
 
@@ -106,6 +107,10 @@ class World:
         ctx.twice = bool(case.get("_twice")) and not getattr(self.prop, "NO_TWICE", False)
         ref.STALE.update(on=bool(case.get("_stale")) and not getattr(self.prop, "NO_STALE", False),
                          seed=pc.get("seed", 0), used=0)
+        ctx.stale = ref.STALE["on"]
+        ref.SPARSE["on"] = bool(case.get("_sparse"))
+        if ref.SPARSE["on"]:
+            ctx.probe("circuits_without_output_marks_on_non_outputs")
         res = {"status": "ok"}
         # watchdog: a single run that takes longer than RUN_WALL_LIMIT seconds (an exponential library query on an
         # unlucky circuit, a heavily loaded machine) is abandoned and counted as skipped - never as held or violated
@@ -131,6 +136,7 @@ class World:
             if ref.STALE["used"]:
                 ctx.probe("object_seen_before_in_other_state", ref.STALE["used"])
             ref.STALE["on"] = False
+            ref.SPARSE["on"] = False
         for kind, k, hit in peer.trace:
             ctx.log("peer", kind, k, hit)
         res["digest"] = ctx.digest()
@@ -206,7 +212,7 @@ class World:
         shrink = getattr(self.prop, "shrink", None)
 
         def with_generic(c):
-            for flag in ("_twice", "_stale"):
+            for flag in ("_twice", "_stale", "_sparse"):
                 if c.get(flag):
                     yield {k: v for k, v in c.items() if k != flag}
             if shrink is not None:
@@ -244,7 +250,7 @@ class World:
         sig_key = getattr(self.prop, "sig_key", lambda s: None)
         want = sig_key(sig)
         def with_generic(c):
-            for flag in ("_twice", "_stale"):
+            for flag in ("_twice", "_stale", "_sparse"):
                 if c.get(flag):
                     yield {k: v for k, v in c.items() if k != flag}
             yield from shrink(c)
@@ -309,6 +315,8 @@ def main():
                     pcase["_twice"] = True
                 if prng.random() < STALE_SHARE:
                     pcase["_stale"] = True
+                if prng.random() < SPARSE_SHARE:
+                    pcase["_sparse"] = True
                 prior.append(json.loads(json.dumps(pcase)))
         if args.fresh_minimise:
             prior, mcase, n_exec = w.minimise_fresh(prior, rp["case"], rp["check_id"], rp["signature"])
@@ -363,6 +371,8 @@ def main():
                 case["_twice"] = True
             if rng.random() < STALE_SHARE:
                 case["_stale"] = True
+            if rng.random() < SPARSE_SHARE:
+                case["_sparse"] = True
             case = json.loads(json.dumps(case))
         except Exception:
             report["harness_errors"].append({"j": j, "rseed": rseed, "trace": "gen: " + traceback.format_exc()[-2000:]})
